@@ -5,6 +5,7 @@ use crate::device::*;
 use crate::engine::*;
 use crate::gen::*;
 use crate::model::*;
+use crate::probe::*;
 use crate::props::c05::expansion_cfg;
 use crate::props::common::*;
 use crate::real::*;
@@ -53,13 +54,15 @@ impl Property for C02 {
         }
     }
     fn required_classes(&self) -> Vec<&'static str> {
-        vec!["mid-clock-row", "early-drop", "post-none-calls", "overriding-driver", "defaulting-driver", "formula-checked", "ran-to-end"]
+        vec!["mid-clock-row", "early-drop", "post-none-calls", "overriding-driver", "defaulting-driver", "formula-checked", "ran-to-end", "driver-failure-inside-an-expansion"]
     }
     fn run(&self, s: &Streams) -> CaseOut {
         let mut out = CaseOut::new();
         let mut cfg = expansion_cfg();
         cfg.device_whiles = false;
-        let built = gen_case(&mut Ch::new(&s[0]), &cfg);
+        let mut built = gen_case(&mut Ch::new(&s[0]), &cfg);
+        // tags: which source row is an item from, and where in its expansion does it sit?
+        let rows = instrument(&mut built, &mut Ch::new(&s[1]), 0, ProbePref::Vars, &[]);
         let text = built_text(&built);
         let mut dch = Ch::new(&s[2]);
         let spec = gen_spec(
@@ -222,6 +225,83 @@ impl Property for C02 {
         if real.log.len() != 1 + rows_so_far {
             out.fail("c02:unaccounted-call", format!("{} driver calls for constructor + {} rows", real.log.len(), rows_so_far));
             return out;
+        }
+        // which rows are checked is decided by their position in the expansion of their
+        // source row: without C every item, with C the last of each 0-1-0 triple
+        let tag_of = |r: &RealRow| match r.inputs.iter().find(|e| e.0 == "TAG").map(|e| e.1) {
+            Some(InVal::Val(t)) => Some(t),
+            _ => None,
+        };
+        let check_positions = |run: &RealRun, out: &mut CaseOut| -> bool {
+            let tags: Vec<Option<i64>> = run.items.iter().map(|i| if let RealItem::Row(r) = i { tag_of(r) } else { None }).collect();
+            let pos = positions(&tags, &rows);
+            for (i, item) in run.items.iter().enumerate() {
+                let (RealItem::Row(r), Some((rid, p))) = (item, pos[i]) else { continue };
+                let info = &rows[&rid];
+                let phases = if info.cs.is_empty() { 1 } else { 3 };
+                let must_be_checked = p % phases == phases - 1;
+                if must_be_checked == r.outputs.is_empty() {
+                    out.fail(
+                        "c02:wrong-rows-checked",
+                        format!(
+                            "next() #{i}: item at position {p} of the expansion of source row #{rid} ({} C columns) has {} output entries; checked rows (every row without C, the third of each clock triple) get the output-reading call, the two mid-clock rows the write-only call and empty outputs",
+                            info.cs.len(),
+                            r.outputs.len()
+                        ),
+                    );
+                    return false;
+                }
+            }
+            true
+        };
+        if !check_positions(&real, &mut out) {
+            return out;
+        }
+        // A driver failure in the middle of an expansion, caller keeps iterating: the rows that
+        // follow must still be sent and checked the way their position says.
+        if real.ended && dch.chance(1, 3) {
+            let tags: Vec<Option<i64>> = real.items.iter().map(|i| if let RealItem::Row(r) = i { tag_of(r) } else { None }).collect();
+            let pos = positions(&tags, &rows);
+            let inner: Vec<usize> = (0..real.items.len()).filter(|i| matches!(pos[*i], Some((_, p)) if p >= 1)).collect();
+            if !inner.is_empty() {
+                let k = inner[dch.upto(inner.len())];
+                let mut fspec = spec.clone();
+                fspec.fail_at = Some(k + 1); // constructor = call 0, item k = call k + 1
+                let faulty = run_real(
+                    &tc,
+                    &built.sigs,
+                    &fspec,
+                    &RunOpts { max_next: 400, continue_after_driver_error: true, fuel: fuel_for(t.facts.steps), ..Default::default() },
+                );
+                out.class("driver-failure-inside-an-expansion");
+                out.put("fault", format!("driver fails at call {} (item {k}), caller keeps iterating", k + 1));
+                for (i, item) in faulty.items.iter().enumerate() {
+                    let before = faulty.log_len_before[i];
+                    let after = faulty.log_len_before.get(i + 1).copied().unwrap_or(faulty.log.len());
+                    match item {
+                        RealItem::Row(r) => {
+                            if after - before != 1 || faulty.log[before].inputs != r.inputs || faulty.log[before].read != (!r.outputs.is_empty() || !fspec.override_write) {
+                                out.fail("c02:protocol-broken-after-driver-error", format!("next() #{i} (after a driver failure at item {k}): {} calls, method/vector do not match the row", after - before));
+                                return out;
+                            }
+                        }
+                        RealItem::DriverErr(_) => {
+                            if after - before != 1 {
+                                out.fail("c02:driver-error-item-calls", format!("next() #{i} returned a driver error and made {} calls", after - before));
+                                return out;
+                            }
+                        }
+                        RealItem::Panic(p) => {
+                            out.fail(p.key(), format!("next() #{i} panicked after a driver failure: {p}"));
+                            return out;
+                        }
+                        RealItem::RuntimeErr(_) => break,
+                    }
+                }
+                if !check_positions(&faulty, &mut out) {
+                    return out;
+                }
+            }
         }
         let dropped_early = !real.ended && n == prefix;
         out.class_if(midclock > 0, "mid-clock-row");
